@@ -77,6 +77,11 @@ def rule_body(ctx, fl):
         ctx.ob('C14.3', 'wait test is in a loop with a yield', lp is not None and any(y.block.id in lp['blocks'] for y in ys),
                'waiters yield the worker between polls (the init routine may need it to finish)', loc=w.loc)
         if lp is not None:
+            h = f.blocks[lp['header']].insts[0]
+            spin = h in f.reachable_from(h, blocked=ys)
+            ctx.ob('C14.3', 'every iteration of the wait loop yields', not spin,
+                   'no cycle of the wait loop avoids the yield: a waiter that spins without yielding can starve the '
+                   'runner of the init routine when waiters occupy all workers', loc=w.loc)
             fresh = [l for l in f.loads_of(ST) if l.block.id in lp['blocks']]
             ctx.ob('C14.3', 'state re-read every iteration', len(fresh) >= 1 and all(l.volatile for l in fresh),
                    'the loop re-loads state (volatile) on every iteration', loc=w.loc)
@@ -154,6 +159,8 @@ MUTANTS = [
      'edits': [(SYNC, "  myth_once_wait_until(once_control, myth_once_state_completed);\n  return 0;\n}", "  if (s == myth_once_state_init) myth_once_wait_until(once_control, myth_once_state_completed);\n  return 0;\n}")]},
     {'name': 'waiters spin without yielding', 'expect': 'C14.3',
      'edits': [(SYNC, "  while (s != state) {\n    myth_yield();\n    s = once_control->state;\n  }", "  while (s != state) {\n    s = once_control->state;\n  }")]},
+    {'name': 'waiters yield once and then spin (seed C14/m3)', 'expect': 'C14.3',
+     'edits': [(SYNC, "  int s = once_control->state;\n  while (s != state) {\n    myth_yield();\n    s = once_control->state;\n  }", "  int s = once_control->state;\n  int n_spins = 0;\n  while (s != state) {\n    if (++n_spins == 100) myth_yield();\n    s = once_control->state;\n  }")]},
     {'name': 'waiters accept in_progress as done', 'expect': 'C14.3',
      'edits': [(SYNC, "  myth_once_wait_until(once_control, myth_once_state_completed);\n  return 0;\n}", "  myth_once_wait_until(once_control, myth_once_state_in_progress);\n  return 0;\n}")]},
     {'name': 'election by plain test-and-set', 'expect': 'C14.1',
